@@ -549,6 +549,7 @@ impl VisitMut for ForEach {
 
 /// R11c: Option-combinator desugaring (opt-in per function, because the receiver type is not known syntactically):
 ///   R.and_then(|p| B) -> match R { Some(p) => B, None => None }      R.map(|p| B) -> match R { Some(p) => Some(B), None => None }
+///   R.filter(|p| B) -> match R { Some(v) => { let p = &v; if B { Some(v) } else { None } } None => None }
 ///   R.ok_or_else(|| B) -> R.ok_or(B)    R.unwrap_or_else(|| B) -> R.unwrap_or(B)    R.or_else(|| B) -> match R { Some(v) => Some(v), None => B }
 /// Closures containing `return` or `?` are left alone.
 pub struct OptDesugar {
@@ -609,6 +610,7 @@ impl VisitMut for OptDesugar {
                     ("ok_or_else", 0) => Some(parse_quote!(#recv.ok_or(#body))),
                     ("unwrap_or_else", 0) => Some(parse_quote!(#recv.unwrap_or(#body))),
                     ("or_else", 0) => Some(parse_quote!(match #recv { Some(__vx_v) => Some(__vx_v), None => #body })),
+                    ("filter", 1) => { let p = &c.inputs[0]; Some(parse_quote!(match #recv { Some(__vx_v) => { let #p = &__vx_v; if #body { Some(__vx_v) } else { None } } None => None })) }
                     _ => None,
                 };
                 if let Some(ne) = ne {
